@@ -21,6 +21,8 @@ package respondent
 //@ struct context
 //@   close_token closeQ when closed
 //@   guarded_by s.Mutex: closed recvExpire sendExpire bestEffort recvPipe backtrace
+//@   nullable: recvPipe
+//@   invariant isnil(backtrace) || recvPipe != nil
 //@   immutable: s closeQ
 //@
 //@ func NewProtocol
